@@ -148,3 +148,228 @@ Theorem C18_source_WriteFrame : forall w o fw t,
                advanced w w' o (snd (fst (write_seq (rw_faults w) (frame_chunks w fw t))))
                         (snd (write_seq (rw_faults w) (frame_chunks w fw t))).
 Proof. exact tie_WriteFrame_gen. Qed.
+
+(* ---- source tie: the two goroutines of cmd/thermal-writer/main.go as they are in /repo now ----
+   coq/translated/WriterLoop.v is regenerated from the Go source on every run (translate/chans.go):
+   ALL of handleConn - header read, the two channels, the pool of inFlight buffers, `go writer(..)`, the
+   frame loop with `<-spentFrames`, io.ReadFull, close(writeFrames) + return on error, the logging
+   conditions, `writeFrames <- frame` - and ALL of writer - newThermalRaw, the loop with its select on the
+   rotation timer and on inFrames, writeFrame, `outFrames <- frame`, Close, time.After; newThermalRaw,
+   writeFrame and Builder.Close are the TRANSLATED definitions of unit ThermalRaw (above).  Channel
+   operations, select and go are calls that leave the translation; model/WriterLoopExt.v says what they
+   mean: the two channels are the FIFO queues of model/Writer.v, buffers are byte slices of the CPTR
+   builder's world, the socket is Socket.v's chunk list, the timer fires by a script.
+   CONVENTION: a blocking operation that cannot proceed is not scheduled (the iteration theorems assume the
+   goroutine's first operation can proceed and PROVE that no later one blocks; the scheduler skips a
+   goroutine that cannot proceed; a call that could not proceed would set [wl_bad], and never does).
+   GRANULARITY: one scheduling step = one iteration of one goroutine's loop body = the two or three
+   steps of model/Writer.v named in the theorem, all enabled; C18_ownership .. C18_flush above are about
+   every interleaving of those finer steps, of which the iteration-level ones are a subset.
+   SIDE CONDITIONS (explicit in the statements): frame size >= 1 (with FrameSize 0 io.ReadFull reads nothing
+   and the loop spins, storing empty frames for ever); header fps and the two log intervals non-zero
+   (`totalFrames % interval`: a header without FPS divides by zero on the first frame - as in C14);
+   nextFile succeeds and no Write fails - otherwise the Go code PANICS (C18_source_loop_open_fail_panics,
+   C18_source_loop_write_fault_panics), taking the daemon down; model / brand / device name <= 255 bytes
+   ([cfg_ok], only for the header fields). *)
+From TR Require Import model.Socket model.WriterLoopExt translated.WriterLoop proofs.TieWriterLoopBase proofs.TieWriterLoop.
+
+(* one iteration of the translated reader loop, from a state in which `<-spentFrames` can proceed and
+   the connection still holds a whole frame: it takes the HEAD of spentFrames, fills that buffer with
+   exactly the next frame-size bytes of the stream (any segmentation), appends it to writeFrames
+   (which has room: never blocks) - the steps RTake, RFill, RSend of model/Writer.v; nothing else of
+   the world changes (the log conditions touch nothing) *)
+Theorem C18_source_loop_reader : forall nbuf base fs p cfg0,
+    (1 <= fs)%nat -> rp_reader p = READER -> rp_header p = HDR -> rp_i1 p <> 0 -> rp_i2 p <> 0 ->
+    forall w wt s input st b sp,
+      Rel nbuf base fs p cfg0 w s -> RelF w wt s -> Inv nbuf input s -> ws_closed s = false -> ws_spent s = b :: sp ->
+      (fs <= List.length (List.concat (wl_in w)))%nat ->
+      let f := firstn fs (List.concat (wl_in w)) in
+      exists st' w' s1 s2 s3,
+        reader_body p st w = Ok (LCont st') w' /\
+        wstep nbuf s RTake = Some s1 /\ wstep nbuf s1 RFill = Some s2 /\ wstep nbuf s2 RSend = Some s3 /\
+        Rel nbuf base fs p cfg0 w' s3 /\ RelF w' wt s3 /\
+        ws_input s = f :: ws_input s3 /\ ws_queue s3 = ws_queue s ++ [b] /\ ws_contents s3 b = f /\
+        ws_spent s3 = sp /\
+        List.concat (wl_in w') = skipn fs (List.concat (wl_in w)) /\
+        wl_timer w' = wl_timer w /\ ws_closed s3 = false.
+Proof. exact reader_iteration. Qed.
+
+(* ... and when the connection ends before the frame is complete: close(writeFrames), the error
+   (io.EOF / io.ErrUnexpectedEOF) is returned, the taken buffer is dropped (in no channel) - RTake, REof *)
+Theorem C18_source_loop_reader_eof : forall nbuf base fs p cfg0,
+    (1 <= fs)%nat -> rp_reader p = READER -> rp_header p = HDR ->
+    forall w wt s input st b sp,
+      Rel nbuf base fs p cfg0 w s -> RelF w wt s -> Inv nbuf input s -> ws_closed s = false -> ws_spent s = b :: sp ->
+      (List.length (List.concat (wl_in w)) < fs)%nat ->
+      exists e w' s1 s2,
+        reader_body p st w = Ok (LRet e) w' /\ e <> 0 /\ (e = WERR_EOF \/ e = WERR_UEOF) /\
+        wstep nbuf s RTake = Some s1 /\ wstep nbuf s1 REof = Some s2 /\
+        Rel nbuf base fs p cfg0 w' s2 /\ RelF w' wt s2 /\
+        ws_input s = [] /\ ws_queue s2 = ws_queue s /\ ws_spent s2 = sp /\ ws_closed s2 = true /\
+        ws_rhand s2 = Some (b, false) /\ wl_in w' = [] /\ wl_timer w' = wl_timer w.
+Proof. exact reader_iteration_eof. Qed.
+
+(* one iteration of the translated writer loop when a frame is queued and the timer does not fire at
+   this select: it receives the HEAD of writeFrames, writes exactly that buffer's bytes as ONE frame
+   section ([enc_frame], through the translated writeFrame) to the open file, returns the buffer to
+   spentFrames (which has room) - WRecv, WWrite, WReturn *)
+Theorem C18_source_loop_writer_frame : forall nbuf base fs p cfg0,
+    (1 <= fs)%nat ->
+    forall w s input bld err tm b q,
+      Rel nbuf base fs p cfg0 w s -> RelF w (WRun (bld, err, tm)) s -> Inv nbuf input s ->
+      hd false (wl_timer w) = false -> ws_queue s = b :: q ->
+      let o := Builder_w bld in
+      exists w' s1 s2 s3,
+        writer_body p (bld, err, tm) w = Ok (LCont (bld, err, tm)) w' /\
+        wstep nbuf s WRecv = Some s1 /\ wstep nbuf s1 WWrite = Some s2 /\ wstep nbuf s2 WReturn = Some s3 /\
+        Rel nbuf base fs p cfg0 w' s3 /\ RelF w' (WRun (bld, err, tm)) s3 /\
+        ws_queue s3 = q /\ ws_spent s3 = ws_spent s ++ [b] /\ ws_cur s3 = ws_cur s ++ [ws_contents s b] /\
+        ws_files s3 = ws_files s /\
+        rout (wl_raw w') o = rout (wl_raw w) o ++ enc_frame (ws_contents s b) /\
+        wl_timer w' = tl (wl_timer w) /\ wl_in w' = wl_in w /\ ws_closed s3 = ws_closed s.
+Proof. exact writer_frame. Qed.
+
+(* ... when writeFrames is closed and drained: Close of the open file, return - WFinish *)
+Theorem C18_source_loop_writer_finish : forall nbuf base fs p cfg0,
+    forall w s input bld err tm,
+      Rel nbuf base fs p cfg0 w s -> RelF w (WRun (bld, err, tm)) s -> Inv nbuf input s ->
+      hd false (wl_timer w) = false -> ws_queue s = [] -> ws_closed s = true ->
+      exists w' s1,
+        writer_body p (bld, err, tm) w = Ok (LRet tt) w' /\
+        wstep nbuf s WFinish = Some s1 /\
+        Rel nbuf base fs p cfg0 w' s1 /\ RelF w' WDone s1 /\
+        ws_files s1 = ws_files s ++ [ws_cur s] /\ ws_done s1 = true /\
+        wl_closed w' = wl_closed w ++ [Builder_w bld] /\ wl_raw w' = wl_raw w /\ wl_in w' = wl_in w /\ ws_closed s1 = true.
+Proof. exact writer_finish. Qed.
+
+(* ... when the timer fires: Close of the open file, the next file with its header (translated
+   newThermalRaw), a NEW timer armed (the fired one is spent) - WRotate; no frame is touched *)
+Theorem C18_source_loop_writer_rotate : forall nbuf base fs p cfg0,
+    (1 <= fs)%nat ->
+    forall w s input bld err tm,
+      Rel nbuf base fs p cfg0 w s -> RelF w (WRun (bld, err, tm)) s -> Inv nbuf input s ->
+      hd false (wl_timer w) = true ->
+      exists w' s1 bld' tm',
+        writer_body p (bld, err, tm) w = Ok (LCont (bld', 0, tm')) w' /\
+        wstep nbuf s WRotate = Some s1 /\
+        Rel nbuf base fs p cfg0 w' s1 /\ RelF w' (WRun (bld', 0, tm')) s1 /\
+        ws_files s1 = ws_files s ++ [ws_cur s] /\ ws_cur s1 = [] /\ ws_queue s1 = ws_queue s /\ ws_spent s1 = ws_spent s /\
+        wl_closed w' = wl_closed w ++ [Builder_w bld] /\ Builder_w bld' = Builder_w bld + 1 /\
+        chan_at w' tm = Some (CTimer (match chan_at w tm with Some (CTimer d _) => d | _ => 0 end) true) /\
+        tm' <> tm /\ wl_timer w' = tl (wl_timer w) /\ wl_in w' = wl_in w /\ ws_closed s1 = ws_closed s.
+Proof. exact writer_rotate. Qed.
+
+(* writer before its loop: the first file with its header, the timer; and the translated writer IS
+   that start followed by `forever` of the loop body the theorems above are about *)
+Theorem C18_source_loop_writer_begin : forall nbuf base fs p cfg0,
+    (1 <= fs)%nat ->
+    forall w s input,
+      Rel nbuf base fs p cfg0 w s -> RelF w WStart s -> Inv nbuf input s ->
+      exists w' tm,
+        writer_start p w = Ok (mkBuilder 0, 0, tm) w' /\
+        (forall fuel, WriterLoop_fn_writer wext fuel (rp_wf p) (rp_sf p) w =
+                      bind (forever fuel (writer_body p) (mkBuilder 0, 0, tm)) after_loop w') /\
+        Rel nbuf base fs p cfg0 w' s /\ RelF w' (WRun (mkBuilder 0, 0, tm)) s /\
+        wl_timer w' = wl_timer w /\ wl_in w' = wl_in w /\
+        exists t, rw_outs (wl_raw w') = [enc_header (raw_header (rw_cfg (wl_raw w)) t)].
+Proof. exact writer_begin. Qed.
+
+(* handleConn from a fresh connection up to its loop: the translated function IS the loop body above,
+   iterated, from [conn_start]: two channels of capacity 256, 256 buffers of FrameSize zero bytes, all of
+   them in spentFrames in order, `go writer(writeFrames, .., spentFrames)`, the scaled log intervals *)
+Theorem C18_source_loop_handleConn : forall conf cfg bytes0 fws rpend input pd vl timer clock lfr fs,
+    wc_hdr_err conf = 0 -> wc_fs conf = Z.of_nat fs ->
+    exists st0, forall fuel,
+      WriterLoop_fn_handleConn wext fuel lfr (w_fresh conf cfg bytes0 fws rpend input pd vl timer clock) =
+      bind (forever fuel (reader_body (conn_p conf cfg lfr)) st0) after_loop
+           (conn_start conf cfg bytes0 fws rpend input vl timer clock fs).
+Proof. exact handleConn_prelude. Qed.
+
+Theorem C18_source_loop_header_error : forall conf cfg bytes0 fws rpend input pd vl timer clock lfr fuel,
+    wc_hdr_err conf <> 0 ->
+    WriterLoop_fn_handleConn wext fuel lfr (w_fresh conf cfg bytes0 fws rpend input pd vl timer clock) =
+    Ok (Some (wc_hdr_err conf)) (with_pend (w_fresh conf cfg bytes0 fws rpend input pd vl timer clock) (wc_hdr_err conf)).
+Proof. exact handleConn_header_error. Qed.
+
+(* one scheduling step of the translated code (either goroutine; skipped when it cannot proceed) is a
+   sequence of enabled steps of model/Writer.v, and keeps the relation *)
+Theorem C18_source_loop_step : forall nbuf base fs p cfg0,
+    (1 <= fs)%nat -> rp_reader p = READER -> rp_header p = HDR -> rp_i1 p <> 0 -> rp_i2 p <> 0 ->
+    forall input x s c,
+      SysRel nbuf base fs p cfg0 input x s ->
+      exists labels, SysRel nbuf base fs p cfg0 input (sys_step p x c) (wrun nbuf s labels).
+Proof. exact sys_step_sim. Qed.
+
+(* COROLLARY: for EVERY schedule of the two translated goroutines from the state in which handleConn
+   enters its loop, the state reached is related to a state of model/Writer.v reached from its initial
+   state on the connection's frames - so C18_ownership, C18_prefix, C18_flush speak about the Go code *)
+Theorem C18_source_loop_schedules : forall conf cfg bytes0 fws rpend input vl timer clock lfr fs,
+    (1 <= fs)%nat -> cfg_ok cfg -> wc_int1 conf * rc_fps cfg <> 0 -> wc_int2 conf * rc_fps cfg <> 0 ->
+    forall st0 sched,
+      exists labels,
+        SysRel 256 (List.length bytes0) fs (conn_p conf cfg lfr) cfg (conn_frames input fs)
+               (sys_run (conn_p conf cfg lfr) (sys0 conf cfg bytes0 fws rpend input vl timer clock fs st0) sched)
+               (reach 256 (conn_frames input fs) labels).
+Proof. exact source_all_schedules. Qed.
+
+Theorem C18_source_loop_no_panic : forall conf cfg bytes0 fws rpend input vl timer clock lfr fs,
+    (1 <= fs)%nat -> cfg_ok cfg -> wc_int1 conf * rc_fps cfg <> 0 -> wc_int2 conf * rc_fps cfg <> 0 ->
+    forall st0 sched,
+      let x := sys_run (conn_p conf cfg lfr) (sys0 conf cfg bytes0 fws rpend input vl timer clock fs st0) sched in
+      sy_r x <> RPanic /\ sy_wr x <> WPanic /\ wl_bad (sy_w x) = false.
+Proof. exact source_no_panic. Qed.
+
+(* at every moment of every schedule the files hold a prefix of the stream's frames, once, in order *)
+Theorem C18_source_loop_prefix : forall conf cfg bytes0 fws rpend input vl timer clock lfr fs,
+    (1 <= fs)%nat -> cfg_ok cfg -> wc_int1 conf * rc_fps cfg <> 0 -> wc_int2 conf * rc_fps cfg <> 0 ->
+    forall st0 sched,
+      let x := sys_run (conn_p conf cfg lfr) (sys0 conf cfg bytes0 fws rpend input vl timer clock fs st0) sched in
+      sy_wr x <> WStart ->
+      exists files,
+        Forall2 (file_of cfg) (rw_outs (wl_raw (sy_w x))) files /\
+        exists rest, List.concat files ++ rest = conn_frames input fs.
+Proof. exact source_prefix. Qed.
+
+(* once writer has returned (on any schedule): handleConn had returned the read error; the files, in
+   order, hold EXACTLY the stream's frames, once, in order; every file is closed - all that was queued
+   was written before the last Close *)
+Theorem C18_source_loop_final : forall conf cfg bytes0 fws rpend input vl timer clock lfr fs,
+    (1 <= fs)%nat -> cfg_ok cfg -> wc_int1 conf * rc_fps cfg <> 0 -> wc_int2 conf * rc_fps cfg <> 0 ->
+    forall st0 sched,
+      let x := sys_run (conn_p conf cfg lfr) (sys0 conf cfg bytes0 fws rpend input vl timer clock fs st0) sched in
+      sy_wr x = WDone ->
+      exists files,
+        Forall2 (file_of cfg) (rw_outs (wl_raw (sy_w x))) files /\
+        List.concat files = conn_frames input fs /\
+        wl_closed (sy_w x) = map Z.of_nat (seq 0 (List.length (rw_outs (wl_raw (sy_w x))))) /\
+        exists e, sy_r x = RDone e /\ e <> 0.
+Proof. exact source_final. Qed.
+
+Theorem C18_source_loop_final_parses : forall conf cfg bytes0 fws rpend input vl timer clock lfr fs,
+    (1 <= fs)%nat -> cfg_ok cfg -> wc_int1 conf * rc_fps cfg <> 0 -> wc_int2 conf * rc_fps cfg <> 0 ->
+    forall st0 sched,
+      let x := sys_run (conn_p conf cfg lfr) (sys0 conf cfg bytes0 fws rpend input vl timer clock fs st0) sched in
+      sy_wr x = WDone -> Z.of_nat fs < 2 ^ 32 ->
+      exists files,
+        Forall2 (fun out frames => exists h, parse_file out = Some (h, frames)) (rw_outs (wl_raw (sy_w x))) files /\
+        List.concat files = conn_frames input fs.
+Proof. exact source_final_parses. Qed.
+
+(* the side conditions the Go code forces: it panics when the file cannot be created / a Write fails *)
+Theorem C18_source_loop_open_fail_panics : forall p w fuel,
+    rw_open_fail (wl_raw w) = true ->
+    exists w', WriterLoop_fn_writer wext fuel (rp_wf p) (rp_sf p) w = Panicked w' /\ writer_start p w = Panicked w'.
+Proof. exact writer_open_fail_panics. Qed.
+
+Theorem C18_source_loop_write_fault_panics : forall p w bld err tm d cap v q cl f,
+    chan_at w tm = Some (CTimer d false) -> chan_at w (rp_wf p) = Some (CFrames cap (v :: q) cl) ->
+    hd false (wl_timer w) = false ->
+    oin (wl_raw w) (Builder_w bld) -> (Z.to_nat v < List.length (rw_bytes (wl_raw w)))%nat ->
+    rw_faults (wl_raw w) = true :: f ->
+    exists w', writer_body p (bld, err, tm) w = Panicked w'.
+Proof. exact writer_write_fault_panics. Qed.
+
+(* every function of the unit is translated *)
+Theorem C18_source_loop_all_translated : untranslated_WriterLoop = [] /\
+    translated_WriterLoop = ["WriterLoop_fn_writer"%string; "WriterLoop_fn_handleConn"%string].
+Proof. split; reflexivity. Qed.
